@@ -50,6 +50,17 @@ def packFields (eb : Nat) (ds : List Nat) : Bytes :=
 def unpackFields (eb n : Nat) (bs : Bytes) : List Nat :=
   splitFields eb n (beNat bs / 2 ^ (8 * bs.length - eb * n))
 
+/-- packing as the code does it: whole blocks of 8 fields through a block routine `pack8`, the remaining < 8 fields
+as a bit stream of their own (`pack_bits` one value at a time) -/
+def packBlocksWith (pack8 : List Nat → Bytes) (eb : Nat) : List Nat → Bytes
+  | a :: b :: c :: d :: e :: f :: g :: h :: rest => pack8 [a, b, c, d, e, f, g, h] ++ packBlocksWith pack8 eb rest
+  | tail => packFields eb tail
+
+/-- unpacking as the code does it: `eb` bytes per whole block of 8 through a block routine, then the tail -/
+def unpackBlocksWith (unpack8 : Bytes → List Nat) (eb : Nat) : Nat → Bytes → List Nat
+  | n + 8, bs => unpack8 (bs.take eb) ++ unpackBlocksWith unpack8 eb n (bs.drop eb)
+  | n, bs => unpackFields eb n bs
+
 /-! ### IR of the unrolled routines -/
 
 inductive Sh where
